@@ -133,7 +133,7 @@ macro_rules! combine_impls {
                         if let Message::Handshake(sink) = message {
                             #[cfg(feature = "verif")]
                             #[allow(unused_imports)]
-                            use crate::verif::{ArcSwap, ArcSwapOption, AtomicUsize};
+                            use crate::verif::{ArcSwap, ArcSwapOption, AtomicBool, AtomicUsize};
                             const N: usize = last_literal!($($idx,)+) + 1;
                             let n_start = Arc::new(AtomicUsize::new(N));
                             let n_data = Arc::new(AtomicUsize::new(N));
